@@ -12,6 +12,46 @@ import digital_rf.digital_metadata as M
 W = 100          # samples per file in the harness channel (1 Hz, 100 s files)
 
 
+class K:
+    """HDF5 group name of a sample: the decimal string of a (symbolic) non-negative integer < 1000, kept as the integer.
+    Ordering is the ordering of the decimal STRINGS (what sorting h5py key lists does), expressed arithmetically."""
+    __slots__ = ('v',)
+    def __init__(self, v): self.v = v
+    @staticmethod
+    def _pad(v):
+        # left-align to 3 digits: value used to compare decimal strings of different lengths ('10' < '2' < '200')
+        if v < 10: return v * 100, 1
+        if v < 100: return v * 10, 2
+        return v, 3
+    def __lt__(self, o):
+        a, la = K._pad(self.v); b, lb = K._pad(o.v)
+        return a < b or (a == b and la < lb)
+    def __gt__(self, o): return o.__lt__(self)
+    def __le__(self, o): return not o.__lt__(self)
+    def __ge__(self, o): return not self.__lt__(o)
+    def __eq__(self, o): return isinstance(o, K) and self.v == o.v
+    def __ne__(self, o): return not self.__eq__(o)
+    __hash__ = None
+
+
+_bi_int, _bi_str = int, str
+
+
+def _int_shim(x=0, *a):
+    if isinstance(x, K): return x.v
+    return _bi_int(x, *a)
+
+
+def _str_shim(x=''):
+    if isinstance(x, K): return x
+    if isinstance(x, _bi_int) or hasattr(x, '__index__') and not isinstance(x, _bi_str): return K(x)
+    return _bi_str(x)
+
+
+M.int = _int_shim
+M.str = _str_shim
+
+
 # ------------------------------------------------------------------ fake h5py
 class Dataset:
     def __init__(self, val): self.val = val
@@ -77,7 +117,7 @@ class LArr:
 class NP:
     int64 = 'int64'; uint64 = int; generic = (); ndarray = (); object_ = object
     @staticmethod
-    def fromiter(it, dtype, count=-1): return LArr([int(x) for x in it])
+    def fromiter(it, dtype, count=-1): return LArr([_int_shim(x) for x in it])
     @staticmethod
     def logical_and(a, b): return [p and q for p, q in zip(a, b)]
 
@@ -115,7 +155,7 @@ def _setup(samples):
         j = 0 if s < W else (1 if s < 2 * W else 2)
         p = _path(j)
         if p not in st.files: st.files[p] = Group()
-        g = st.files[p].create_group(str(s)); g.create_dataset('v', data=('val', s))
+        g = st.files[p].create_group(K(s)); g.create_dataset('v', data=('val', s))
     r = M.DigitalMetadataReader.__new__(M.DigitalMetadataReader)
     r._metadata_dir = '/md'; r._file_cadence_secs = W; r._subdir_cadence_secs = 1000; r._file_name = 'md'
     M.h5py = FakeH5(st); M.np = NP; M.collections = Coll
@@ -208,3 +248,121 @@ def _meta_witness(a: int, d1: int, lo: int) -> bool:
     """
     r, st = _setup([a, a + d1])
     return len(r.read(lo, 320, method='ffill')) != 2       # reachability twin
+
+
+# ------------------------------------------------------------------ writer (C12 write side, C20 open/close discipline)
+
+class Rate:
+    """samples per second stand-in (1 Hz): cadence * Rate -> samples per file; sample / that -> exact quotient (placement is C13's job)"""
+    def __rmul__(self, c): return SPF(c)
+    def __mul__(self, c): return SPF(c)
+
+
+class SPF:
+    def __init__(self, w): self.w = w
+    def __rtruediv__(self, s): return Quot(s, self.w)
+
+
+class Quot:
+    def __init__(self, s, w): self.s, self.w = s, w
+
+
+class NPW(NP):
+    @staticmethod
+    def uint64(x):
+        if isinstance(x, Quot): return x.s // x.w
+        return x
+    @staticmethod
+    def asarray(x, dtype=None): return LArr(list(x) if isinstance(x, (list, tuple)) else [x])
+    @staticmethod
+    def atleast_1d(a): return a
+
+
+class FakeOSW:
+    class path:
+        @staticmethod
+        def join(*a): return '/'.join(a)
+        @staticmethod
+        def exists(p): return True
+    @staticmethod
+    def makedirs(p): pass
+
+
+def _writer(existing):
+    st = Store()
+    for s in existing:
+        j = 0 if s < W else (1 if s < 2 * W else 2)
+        p = '/md/1970-01-01T00-00-00/md@%d.h5' % (j * W)
+        if p not in st.files: st.files[p] = Group()
+        g = st.files[p].create_group(K(s)); g.create_dataset('v', data=('old', s))
+    w = M.DigitalMetadataWriter.__new__(M.DigitalMetadataWriter)
+    w._metadata_dir = '/md'; w._file_cadence_secs = W; w._subdir_cadence_secs = 1000; w._file_name = 'md'
+    w._samples_per_second = Rate(); w._sample_rate_numerator = 1; w._sample_rate_denominator = 1; w._fields = ['v']
+    M.h5py = FakeH5(st); M.np = NPW; M.os = FakeOSW
+    return w, st
+
+
+def _file_of(s): return '/md/1970-01-01T00-00-00/md@%d.h5' % ((0 if s < W else (1 if s < 2 * W else 2)) * W)
+
+
+def _write_new(e: int, a: int, d1: int) -> bool:
+    """
+    pre: 0 <= e < 300 and 0 <= a < 300 and 1 <= d1 < 300 and a + d1 < 300
+    post: _
+    """
+    # channel already holding sample e; write samples a < a+d1 (list-of-dicts form).  Accepted iff neither index exists; then each sample is one
+    # group named by its index in the file of its index, holding its own value; every file opened is closed when write returns.
+    # An index that already exists is refused with IOError and the stored sample is unchanged.
+    w, st = _writer([e])
+    samples = [a, a + d1]
+    try:
+        w.write(samples, [{'v': ('new', a)}, {'v': ('new', a + d1)}])
+        ok = True
+    except IOError:
+        ok = False
+    closed = st.open_now == 0 and all(x[0] != 'open' or x[2] in ('a', 'r') for x in st.log)
+    old = st.files[_file_of(e)][K(e)]['v'].val == ('old', e)
+    if e == a or e == a + d1:
+        return (not ok) and old and closed
+    if not ok: return False
+    good = True
+    for s in samples:
+        f = st.files.get(_file_of(s))
+        good = good and f is not None and K(s) in f and f[K(s)]['v'].val == ('new', s)
+    # nothing else was created
+    total = sum(len(f.items_) for f in st.files.values())
+    return good and old and closed and total == 3
+
+
+def _write_dict_forms(a: int, d1: int, d2: int, slen: int) -> bool:
+    """
+    pre: 0 <= a < 300 and 1 <= d1 < 300 and 1 <= d2 < 300 and a + d1 + d2 < 300 and 0 <= slen <= 4
+    post: _
+    """
+    # dict-of-values form for 3 samples: a list of length 3 is distributed one element per sample; a scalar and a list of another length are
+    # repeated for every sample; a string is never distributed, whatever its length; nested dictionaries keep their structure
+    w, st = _writer([])
+    samples = [a, a + d1, a + d1 + d2]
+    text = 'abcd'[:slen]
+    w.write(samples, {'per': [10, 20, 30], 'all': 7, 'pair': [1, 2], 'txt': text, 'sub': {'x': [4, 5, 6], 't': text}})
+    good = st.open_now == 0
+    for i, s in enumerate(samples):
+        f = st.files.get(_file_of(s))
+        if f is None or K(s) not in f: return False
+        g = f[K(s)]
+        good = (good and g['per'].val == [10, 20, 30][i] and g['all'].val == 7 and g['pair'].val == [1, 2] and g['txt'].val == text
+                and g['sub/x'].val == [4, 5, 6][i] and g['sub/t'].val == text)
+    return good
+
+
+def _write_witness(e: int, a: int) -> bool:
+    """
+    pre: 0 <= e < 300 and 0 <= a < 299
+    post: _
+    """
+    w, st = _writer([e])
+    try:
+        w.write([a, a + 1], [{'v': 1}, {'v': 2}])
+    except IOError:
+        return True
+    return False       # reachability twin: an accepted write must be reachable
